@@ -112,6 +112,16 @@ class P(framework.Prop):
             d = wire.val(rng.choice([gen.rand_doc(rng, 3), {"a": rng.choice([1, "x", None, [1, 2], {"b": 2}, True]), "b": rng.choice([2, "y", [3, None], None, 0.5]), "c": rng.choice(["s", 3, None])}]))
             self.ttrials.append((kind, X, Y, d, comp))
             out.append("search %s %s" % (wire.s(comp), d))
+        consts = ["`true`", "`false`", "`null`", "`[]`", "`{}`", "`\"\"`", "`0`", "`1`", "''", "'x'", "`[0]`", "@", "a", "missing"]
+        cdocs = [wire.val(v) for v in [{"a": []}, {"a": 0}, {"a": "x"}, {"a": None}, {"a": False}, {"a": True}, {"a": {}}, None, [], [1]]]
+        for X in consts:
+            for Y in consts:
+                for kind in ("and", "or"):
+                    for paren in (True, False):
+                        comp = ("(%s) %s (%s)" if paren else "%s %s %s") % (X, "&&" if kind == "and" else "||", Y)
+                        for d in (cdocs if tier != "quick" else rng.sample(cdocs, 3)):
+                            self.ttrials.append((kind, X, Y, d, comp))
+                            out.append("search %s %s" % (wire.s(comp), d))
         return out
 
     def extra(self, ctx):
